@@ -89,6 +89,27 @@ def step : List String → String
     match nat? n with
     | some n => if payloadTooBig n then "err size" else "ok"
     | none => "bad-op"
+  | "wseq" :: magic :: seq :: n :: rest =>
+    -- blocks handed to WriteMessage one after the other: the wire must carry, frame by frame, the
+    -- serialization of the block sent (the send cache is an optimisation the model does not have)
+    match nat? magic, nat? n with
+    | some m, some n =>
+      let rec pays : Nat → List String → Option (List Bytes)
+        | 0, [] => some []
+        | 0, _ :: _ => none
+        | k + 1, _desc :: p :: more => match hexBytes? p, pays k more with
+          | some b, some bs => some (b :: bs)
+          | _, _ => none
+        | _ + 1, _ => none
+      match pays n rest with
+      | some ps =>
+        let idxs := (seq.splitOn ".").filterMap nat?
+        let blockMax := (lookup ((stack? "elanet").getD []) (strBytes "block")).getD 0
+        match writeStream H m (idxs.map fun i => (strBytes "block", blockMax, ps.getD i [])) with
+        | some w => toHex w
+        | none => "err"
+      | none => "bad-op"
+    | _, _ => "bad-op"
   | ["rt", st, magic, cmd, payload] =>
     -- a real message of command `cmd` whose serialization is `payload`, written then read back
     match stack? st, nat? magic, hexBytes? payload with
